@@ -15,6 +15,38 @@ var c06Exprs = []string{
 	"a[0]", "flatten_me[][]", "a | [0]", "min(a)", "max(a)", "sum(a)", "avg(a)", "a[?@ == `1`]", "c[*].k", "c[?k].k", "c[].k", "to_string(a)", "length(a)",
 }
 
+// c06Gen: every aliasing-prone function applied to every kind of argument
+// expression (plain field, each projection kind with and without right-hand
+// side, slices, literals, multi-selects, boolean forms), and object functions
+// with a literal in every position.
+func c06Gen() []string {
+	fns := []string{"sort(%s)", "reverse(%s)", "to_array(%s)", "sort_by(%s, &@)", "max(%s)", "map(&@, %s)", "not_null(%s)", "(%s)[0]", "%s | sort(@)", "zip(%s, %s)", "join('-', %s)"}
+	args := []string{"a", "a[*]", "a[]", "a[?@]", "a[1:]", "a[::-1]", "a[:2]", "`[3, 1, 2]`", "[a[0], a[1]]", "a || `[]`", "a[?@ != `9`]", "c[*].k", "to_array(a)", "values(b)", "a[*][0]", "not_null(a)", "a[]"}
+	var out []string
+	for _, f := range fns {
+		for _, a := range args {
+			e := ""
+			for i := 0; i < len(f); i++ {
+				if f[i] == '%' && i+1 < len(f) && f[i+1] == 's' {
+					e += a
+					i++
+				} else {
+					e += string([]byte{f[i]})
+				}
+			}
+			out = append(out, e)
+		}
+	}
+	objs := []string{"b", "`{\"k\": 1}`", "{k: a}", "from_items(d)", "b || `{}`", "merge(b)", "group_by(c, &k)"}
+	for _, x := range objs {
+		for _, y := range objs {
+			out = append(out, "merge("+x+", "+y+")")
+		}
+		out = append(out, "values("+x+")", "keys("+x+")", x+".*", "items("+x+")", "("+x+").k")
+	}
+	return out
+}
+
 // deepCopy snapshots a value including the spare capacity of its slices.
 // Under symbolic execution the engine's shared-write monitor observes every
 // store instead (a snapshot would force every undecided part of the document),
@@ -115,9 +147,15 @@ func c06Unordered(expr string) bool {
 // H_C06_pure: one Search on a compiled expression leaves document, expression
 // and globals untouched, and equals the one-shot Search; then the history
 // e(d1); e(d2); e(d1) is replayed and every result re-checked.
-func H_C06_pure() {
-	k := vrtChoose("expr", len(c06Exprs))
-	expr := c06Exprs[k]
+func H_C06_pure() { c06Pure(c06Exprs) }
+
+// H_C06_generated: the same obligations over the generated function x argument
+// templates.
+func H_C06_generated() { c06Pure(c06Gen()) }
+
+func c06Pure(exprs []string) {
+	k := vrtChoose("expr", len(exprs))
+	expr := exprs[k]
 	vrtNote("template:" + expr)
 	d1 := c06Doc()
 	snap1 := deepCopy(d1)
@@ -126,7 +164,7 @@ func H_C06_pure() {
 	if cerr != nil {
 		return
 	}
-	un := c06Unordered(expr)
+	un := c06Unordered(expr) || len(exprs) > len(c06Exprs)
 	vrtMonitor(true)
 	r1, err1 := e.Search(d1)
 	vrtMonitor(false)
